@@ -62,14 +62,14 @@ structure Cfg where
   /-- the fallback recovery of the flow derivation restores the saved connection lists
   instead of re-connecting the recorded pairs (D8) -/
   dagSnapshot : Bool
-  /-- `Workflow.replace_child` checks that its IO can still be built before the swap (D7) -/
-  wfDryRun : Bool
   /-- bound of the ancestor walk and of the receiver chain -/
   fuel : Nat
   deriving Repr
 
-def Cfg.pinned (fuel : Nat := 64) : Cfg := ⟨false, false, false, false, false, false, false, fuel⟩
-def Cfg.repaired (fuel : Nat := 64) : Cfg := ⟨true, true, true, true, true, true, true, fuel⟩
+def Cfg.pinned (fuel : Nat := 64) : Cfg := ⟨false, false, false, false, false, false, fuel⟩
+def Cfg.repaired (fuel : Nat := 64) : Cfg := ⟨true, true, true, true, true, true, fuel⟩
+/-- the tree as it is now: `fix: 02da358` (the ownership pre-check of C13) is in, nothing else -/
+def Cfg.current (fuel : Nat := 64) : Cfg := ⟨false, false, true, false, false, false, fuel⟩
 
 /-- the channels of a node, per panel, in panel order -/
 structure NodeIO where
